@@ -17,6 +17,14 @@ impl<'a> Tape<'a> {
     pub fn new_cyclic(data: &'a [u32]) -> Self {
         Tape { data, pos: 0, cyclic: true }
     }
+    /// a hash of the whole tape (consumes nothing): for decisions added later that must not shift the existing ones
+    pub fn content_hash(&self) -> u64 {
+        let mut h = 0xcbf29ce484222325u64;
+        for w in self.data {
+            h = (h ^ *w as u64).wrapping_mul(0x100000001b3);
+        }
+        h ^ (h >> 29)
+    }
     pub fn exhausted(&self) -> bool {
         self.pos >= self.data.len() && !(self.cyclic && !self.data.is_empty())
     }
